@@ -24,12 +24,12 @@ func Structural() []Tok {
 	return out
 }
 
-// FullAlphabet is the 35-token alphabet of G1.
+// FullAlphabet is the 37-token alphabet of G1.
 func FullAlphabet() []Tok {
 	out := []Tok{
 		Term(Word("a")), Term(Word("b")), Term(Int(5)), Term(Int(-3)), Term(IntSrc("010")), Term(Float("1.5")),
 		Term(Quoted("q r")), Term(Quoted("")), Term(Wild("w*")), Term(Wild("?")), Term(Wild("*")),
-		Term(Regexp("r x")), Term(EscapedWord("x:y")), RawTerm("'s'"), Term(Quoted("w*")), Term(Quoted("/r/")), Term(EscapedWord("a*b")),
+		Term(Regexp("r x")), Term(EscapedWord("x:y")), RawTerm("'s'"), Term(Quoted("w*")), Term(Quoted("/r/")), Term(EscapedWord("a*b")), RawTerm("'s t'"), Term(EscapedWord("x\\")),
 	}
 	return append(out, Structural()...)
 }
@@ -50,9 +50,9 @@ func RangeAlphabet() []Tok {
 	return []Tok{Term(Word("a")), Term(Wild("*")), Sym(":"), Sym("["), Sym("]"), Sym("{"), Sym("}"), Kw("TO", "TO"), Sym("("), Sym(")")}
 }
 
-// UnaryAlphabet focuses on prefix and suffix operators (10 tokens).
+// UnaryAlphabet focuses on prefix and suffix operators (11 tokens).
 func UnaryAlphabet() []Tok {
-	return []Tok{Term(Word("a")), Term(Int(2)), Sym(":"), Sym("("), Sym(")"), Sym("+"), Sym("-"), Sym("~"), Sym("^"), Kw("NOT", "NOT")}
+	return []Tok{Term(Word("a")), Term(Int(2)), Sym(":"), Sym("("), Sym(")"), Sym("+"), Sym("-"), Sym("~"), Sym("^"), Kw("NOT", "NOT"), RawTerm("nan")}
 }
 
 // EnumSeqs calls fn with every token sequence over the alphabet of length 1..maxLen,
